@@ -10,6 +10,7 @@ import (
 	"os"
 	"strings"
 	"sync"
+	"time"
 
 	"golang.org/x/tools/go/ssa"
 )
@@ -362,6 +363,8 @@ type Exec struct {
 	mute         int
 	steps        int
 	maxSteps     int
+	started      time.Time
+	execBudget   time.Duration
 	noDecr       []string
 	bounded      []string
 }
@@ -372,6 +375,15 @@ func newExec(P *Program) *Exec {
 		assumed: map[string]bool{}, lineHash: map[string]int{}, closures: map[*Term]*closure{}, constGlobals: map[*Term]bool{}, fpBits: map[*Term]*Term{}, fpOf: map[*Term]*Term{}, times: map[*Term]civil{}, escaped: map[*Term]bool{}, ghostBounded: map[*Term]bool{}, freshGhost: map[uint32]bool{}}
 	e.cfg = ExecConfig{unroll: 40, inlineDepth: 8, maxPaths: 20000}
 	e.maxSteps = 3000000
+	// wall-clock budget of one function's symbolic execution: a function that cannot be explored
+	// within it is reported as outside reach (never as proved) instead of hanging the check
+	e.started = time.Now()
+	e.execBudget = 300 * time.Second
+	if v := os.Getenv("KVC_EXEC_BUDGET"); v != "" {
+		if d, err := time.ParseDuration(v); err == nil {
+			e.execBudget = d
+		}
+	}
 	for i, w := range heapWidths {
 		e.base[i] = e.c.Var(fmt.Sprintf("H%d", w), Sort{KArr, w})
 	}
@@ -393,6 +405,13 @@ type unsupported struct{ msg string }
 
 func (e *Exec) fail(format string, a ...interface{}) {
 	panic(unsupported{fmt.Sprintf(format, a...)})
+}
+
+// tick enforces the wall-clock budget of one function's symbolic execution.
+func (e *Exec) tick() {
+	if e.execBudget > 0 && time.Since(e.started) > e.execBudget {
+		e.fail("time budget (%v) of the symbolic execution exceeded in %s", e.execBudget, e.rootFn)
+	}
 }
 
 func (e *Exec) note(format string, a ...interface{}) {
@@ -857,6 +876,9 @@ func (e *Exec) execFrom(fr *Frame, st State, b *ssa.BasicBlock, prev *ssa.BasicB
 		e.steps++
 		if e.maxSteps > 0 && e.steps > e.maxSteps {
 			e.fail("step budget exceeded in %s", e.rootFn)
+		}
+		if e.steps&63 == 0 {
+			e.tick()
 		}
 		switch in := instr.(type) {
 		case *ssa.Phi:
